@@ -142,6 +142,10 @@ pub fn download_hook(url: &str) -> anyhow::Result<Vec<u8>> {
     }
 }
 
+pub fn arch_name() -> &'static str {
+    arch()
+}
+
 fn arch() -> &'static str {
     if cfg!(target_arch = "x86_64") {
         "x86_64"
@@ -365,7 +369,9 @@ pub fn wait_quiescent() {
     let start = std::time::Instant::now();
     loop {
         let n = std::fs::read_dir("/proc/self/task").map(|d| d.count()).unwrap_or(1);
-        if n <= 1 {
+        // the scripted HTTP server keeps one accept thread for the whole run
+        let base = if crate::http::enabled() { 2 } else { 1 };
+        if n <= base {
             return;
         }
         if start.elapsed().as_secs() > 20 {
@@ -487,7 +493,11 @@ impl World {
         if f[4] != "-" {
             m.insert("auto_update".into(), (f[4] == "t").into());
         }
-        m.insert("base_url".into(), "http://h".into());
+        if crate::http::enabled() {
+            m.insert("base_url".into(), crate::http::base_url().into());
+        } else {
+            m.insert("base_url".into(), "http://h".into());
+        }
         serde_yaml::to_string(&m).unwrap()
     }
 
@@ -513,9 +523,44 @@ impl World {
         let yaml_c = CString::new(self.yaml_of(y)).unwrap();
         let r = c_api::shorebird_init(&params, callbacks, yaml_c.as_ptr());
         let n = ACT.lock().unwrap().len();
-        verif_set_network_hooks(check_hook, download_hook, report_hook);
+        if !crate::http::enabled() {
+            // real-transport mode keeps the library's default callbacks (reqwest)
+            verif_set_network_hooks(check_hook, download_hook, report_hook);
+        }
         ACT.lock().unwrap().truncate(n);
         r
+    }
+
+    // real-transport mode: script the local server for this call (hc= hd= he= hb= tokens)
+    fn http_script(&self, r: &Option<RespSpec>, dl: &Option<Vec<u8>>, toks: &[&str]) -> bool {
+        if !crate::http::enabled() {
+            return false;
+        }
+        let mut sc = crate::http::Script {
+            resp: r.clone(),
+            raw_body: None,
+            dl: dl.clone(),
+            hc: if r.is_none() { "s500".into() } else { "ok".into() },
+            hd: if dl.is_none() { "s404".into() } else { "ok".into() },
+            he: "ok".into(),
+        };
+        for t in toks {
+            if let Some((k, v)) = t.split_once('=') {
+                match k {
+                    "hc" => sc.hc = v.to_string(),
+                    "hd" => sc.hd = v.to_string(),
+                    "he" => sc.he = v.to_string(),
+                    "hb" => sc.raw_body = Some(self.blob(v)),
+                    _ => {}
+                }
+            }
+        }
+        let refuse = sc.hc == "refused";
+        *crate::http::SCRIPT.lock().unwrap() = Some(sc);
+        if refuse {
+            crate::http::set_refuse(true);
+        }
+        refuse
     }
 
     pub fn set_env(resp: Option<RespSpec>, dl: Option<Vec<u8>>) {
@@ -678,9 +723,14 @@ impl World {
             }
             ["auto"] => c_api::shorebird_should_auto_update().to_string(),
             ["check", ch, rest @ ..] => {
-                let (r, _) = parse_resp(rest);
+                let (r, rest2) = parse_resp(rest);
+                let refuse = self.http_script(&r, &None, rest2);
                 Self::set_env(r, None);
-                self.check(&ostr_tok(ch))
+                let o = self.check(&ostr_tok(ch));
+                if refuse {
+                    crate::http::set_refuse(false);
+                }
+                o
             }
             ["update", ch, rest @ ..] => {
                 let (r, rest2) = parse_resp(rest);
@@ -689,8 +739,13 @@ impl World {
                 } else {
                     Some(self.blob(rest2[0]))
                 };
+                let refuse = self.http_script(&r, &dl, &rest2[1..]);
                 Self::set_env(r, dl);
-                self.update(&ostr_tok(ch))
+                let o = self.update(&ostr_tok(ch));
+                if refuse {
+                    crate::http::set_refuse(false);
+                }
+                o
             }
             _ => panic!("bad op {:?}", toks),
         }
@@ -735,6 +790,9 @@ pub fn main(args: &[String]) -> i32 {
                 w.blobs.insert(toks[1].to_string(), b);
             }
             "zdec" | "sig" | "num" => {}
+            "http" => {
+                crate::http::start();
+            }
             "stall" => {
                 crate::sched::STALL.store(toks[1] == "on", std::sync::atomic::Ordering::SeqCst);
             }
